@@ -540,6 +540,49 @@ class Facts:
                                     bind_lit(q_, x_)
                         for pat, arg in zip(new[c].get("params", []), arg_nodes):
                             bind_lit(pat, arg)
+                        # a parameter bound to a local that was just built as a struct literal (`let forward = ProofDirection { name: "forward",
+                        # lemmas: self.proof_outline.forward_lemmas, .. }; forward.outline_problems(..)`): reads of its fields inside the helper
+                        # are reads of what the fields were initialised with
+                        for pat, arg in zip(new[c].get("params", []), arg_nodes):
+                            a_ = strip(arg) if isinstance(arg, dict) else {}
+                            while a_.get("k") in ("AddrOf", "Ref", "Unary") and isinstance(a_.get("e"), dict):
+                                a_ = strip(a_["e"])
+                            if not (pat.get("p") == "Bind" and isinstance(pat.get("id"), int) and a_.get("k") == "Path" and a_.get("res", {}).get("r") == "local"):
+                                continue
+                            init_ = None
+                            for st_ in walk(root):
+                                if st_.get("k") == "LetStmt" and st_.get("pat", {}).get("p") == "Bind" and st_["pat"].get("id") == a_["res"].get("id") and "init" in st_:
+                                    init_ = strip(st_["init"])
+                            if not (init_ and init_.get("k") == "Struct" and "base" not in init_):
+                                continue
+                            finit = {f_["name"]: f_["e"] for f_ in init_.get("fields", [])}
+
+                            def simple_(x):
+                                x = strip(x) if isinstance(x, dict) else {}
+                                if x.get("k") == "Lit":
+                                    return True
+                                while x.get("k") == "Field":
+                                    x = strip(x["e"])
+                                return x.get("k") == "Path" and x.get("res", {}).get("r") in ("local", "const", "static")
+                            pid_ = fresh(pat["id"])
+                            for m in list(walk(cp)):
+                                if m.get("k") == "Field" and m.get("name") in finit and simple_(finit[m["name"]]):
+                                    base_ = strip(m["e"])
+                                    if base_.get("k") == "Path" and base_.get("res", {}).get("r") == "local" and base_["res"].get("id") == pid_:
+                                        fe_ = strip(finit[m["name"]])
+                                        if fe_.get("k") == "Lit" and isinstance(fe_.get("v"), (str, int)) and not isinstance(fe_.get("v"), bool):
+                                            names["%s.%s" % (pat.get("name"), m["name"])] = str(fe_["v"])
+                                        line = m.get("line")
+                                        repl = copy.deepcopy(finit[m["name"]])
+                                        m.clear()
+                                        m.update(repl)
+                                        if line is not None:
+                                            m["line"] = line
+                        # `let label = self.label;` with the field known to be "forward": the local names that literal in the templates below it
+                        for st_ in walk(cp):
+                            if st_.get("k") == "LetStmt" and st_.get("pat", {}).get("p") == "Bind" and "sub" not in st_["pat"] and "Mut" not in str(st_["pat"].get("mode", "")) \
+                                    and isinstance(st_.get("init"), dict) and strip(st_["init"]).get("k") == "Lit" and isinstance(strip(st_["init"]).get("v"), str):
+                                names.setdefault(st_["pat"].get("name"), strip(st_["init"])["v"])
                         if names:
                             # format!("{direction}_outline_{i}") with direction = "forward" reads format!("forward_outline_{i}")
                             import re as _re
